@@ -101,6 +101,23 @@ def gen(seed, tier):
             clean.append(f)
         cases.append(H("C13-v%d-a" % part, {}, [blob(0, b"\n".join(clean) + b"\n")]))
         cases.append(H("C13-v%d-b" % part, {}, [blob(0, b"\n".join(dirty) + b"\n")]))
+    # tens of thousands of junk lines in an unbroken run between two frames (the skip must be a loop)
+    for i, nj in enumerate([30000] if tier == "quick" else [30000, 120000]):
+        fa, fb = g.f_df17().encode(), g.f_df17().encode()
+        run = b"\n".join(r.choice([b"", b"x", b"#", b"8D", b"\xff"]) for _ in range(nj))
+        cases.append(H("C13-r%d-a" % i, {}, [blob(0, fa + b"\n" + fb + b"\n")]))
+        cases.append(H("C13-r%d-b" % i, {}, [blob(0, fa + b"\n" + run + b"\n" + fb + b"\n")]))
+    # the same accepted line twice, with junk in between or not: junk does not change how the repeat is treated
+    for i in range(12 if tier == "quick" else 120):
+        icao = r.choice(ICAOS)
+        f = r.choice([g.f_long(21, icao), g.f_long(20, icao), g.f_short(5, icao), g.f_df17(icao, g.me_airpos())]).encode()
+        other = g.f_df17().encode()
+        j = junk(g).replace(b"\n", b"")
+        if pyspec.frame_of_line(j) is not None:
+            j = b"#"
+        o = {"U": 1} if i % 2 else {}
+        cases.append(H("C13-d%d-a" % i, o, [blob(0, b"\n".join([f, f, other]) + b"\n")]))
+        cases.append(H("C13-d%d-b" % i, o, [blob(0, b"\n".join([f, j, f, other]) + b"\n")]))
     # junk between frames of other aircraft while one aircraft is stale: the sweep must come after the same
     # number of ACCEPTED frames in both streams (junk does not count)
     for i in range(60 if tier == "quick" else 600):
